@@ -2,7 +2,9 @@ package c20
 
 import (
 	"fmt"
+	"github.com/cloudwego/hertz/pkg/common/test/mock"
 	"github.com/cloudwego/hertz/pkg/protocol"
+	"github.com/cloudwego/hertz/pkg/protocol/http1/req"
 	"math"
 	"os"
 	"reflect"
@@ -69,7 +71,7 @@ type values struct {
 var numLits = []float64{0, 1, 2, 3, 5, 7, 10, 0.5, 0.25, 1.5, 2.5, 7.5, 100, 255, 1000000}
 
 // numeric-looking strings stay strings: '01' != '1', '1.0' != '1', '10' < '9'
-var strLits = []string{"", "a", "b", "ab", "abc", "A", "é", "0", "x y", "it's", "1", "01", "1.0", "+1", "1e1", "10", "-0", "9"}
+var strLits = []string{"", "a", "b", "ab", "abc", "A", "é", "0", "x y", "it's", "1", "01", "1.0", "+1", "1e1", "10", "-0", "9", "a;", ";b", ";", "a;b"}
 var numFields = []string{"A", "B", "C", "D", ""}
 var strFields = []string{"S", "T"}
 
@@ -696,8 +698,8 @@ func buildWild(expr string, v *wildVals) reflect.Value {
 		e.Field(8).Set(reflect.ValueOf(1.5))
 	case 5:
 		e.Field(8).Set(reflect.ValueOf((*int)(nil))) // a typed nil pointer inside the interface
-	// (a typed nil pointer to a STRUCT inside an interface field makes the struct walker refuse the whole
-	// value with "unsupported data: nil" before any expression runs: outside this property, not drawn)
+		// (a typed nil pointer to a STRUCT inside an interface field makes the struct walker refuse the whole
+		// value with "unsupported data: nil" before any expression runs: outside this property, not drawn)
 	}
 	e.Field(9).SetInt(int64(v.X))
 	return obj
@@ -806,6 +808,16 @@ func TestC20Relations(t *testing.T) {
 		}
 		if gtOrEq != (gt || eq) || ltOrEq != (lt || eq) {
 			fail("|| of two verdicts is not their disjunction")
+		}
+		// a sum with an absent operand (nil pointer, element beyond the end) does not depend on the side
+		// the absent operand stands on
+		absent := rapid.SampledFrom([]string{"(P)$", "(L)$[5]", "(L)$[-1]", "nil", "(Q)$"}).Draw(t, "maybeAbsent")
+		num := rapid.SampledFrom([]string{"1", "0.5", "(A)$", "0"}).Draw(t, "number")
+		rhs := rapid.SampledFrom([]string{"1", "0", "0.5", "(A)$"}).Draw(t, "sumEquals")
+		if absent != "(Q)$" { // (a string plus a number is a concatenation, which has sides)
+			if l, r := acc("("+absent+")+"+num+"=="+rhs), acc(num+"+("+absent+")=="+rhs); l != r {
+				t.Fatalf("%s+%s==%s is %v but %s+%s==%s is %v with %+v", absent, num, rhs, l, num, absent, rhs, r, *v)
+			}
 		}
 		// redundant parentheses around the operand of a unary "!" do not change the verdict, and for the
 		// boolean-valued built-ins (regexp, in) "!f(...)" is accepted exactly when "f(...)" is not
@@ -931,6 +943,163 @@ func TestC20ByValue(t *testing.T) {
 						t.Errorf("struct{F %s `vd:%q`} (%s, value #%d): %s", sp.name, tag, shape, vi, msg)
 					}
 				}
+			}
+		}
+	}
+}
+
+// ---------------------------------------------------------------------------
+// Selectors through pointer members: "(Addr.City)$" where Addr is *Addr (or **Addr), inside structs
+// that are themselves reached through pointers, slices and maps, with every combination of the
+// pointers on the way being nil. Never a panic; a rule whose own struct is absent is not evaluated
+// (the value is accepted), a rule whose struct is present sees nil for what is absent.
+type nsAddr struct{ City string }
+
+type nsUser struct {
+	Addr *nsAddr
+	Name string `vd:"len($)>0 || len((Addr.City)$)>0"`
+}
+
+type nsUser2 struct {
+	Addr **nsAddr
+	Name string `vd:"len($)>0 || len((Addr.City)$)>0"`
+}
+
+type nsReq struct {
+	User  *nsUser
+	Users []*nsUser
+	ByKey map[string]*nsUser
+	U2    *nsUser2
+}
+
+func TestC20NestedSelectors(t *testing.T) {
+	rec := ev.New("nested-selectors")
+	addr := &nsAddr{City: "x"}
+	var nilAddr *nsAddr
+	mkUser := func(kind int) *nsUser {
+		switch kind {
+		case 0:
+			return nil
+		case 1:
+			return &nsUser{} // Addr nil, Name empty: the rule is false
+		case 2:
+			return &nsUser{Addr: addr} // City set: true
+		default:
+			return &nsUser{Name: "n"}
+		}
+	}
+	mkUser2 := func(kind int) *nsUser2 {
+		switch kind {
+		case 0:
+			return nil
+		case 1:
+			return &nsUser2{}
+		case 2:
+			return &nsUser2{Addr: &nilAddr} // outer pointer set, inner nil
+		default:
+			return &nsUser2{Addr: &addr}
+		}
+	}
+	for a := 0; a < 4; a++ {
+		for b := 0; b < 4; b++ {
+			for c := 0; c < 4; c++ {
+				for d := 0; d < 4; d++ {
+					req := &nsReq{User: mkUser(a), U2: mkUser2(d)}
+					if b > 0 {
+						req.Users = []*nsUser{mkUser(b - 1), mkUser(b)}
+					}
+					if c > 0 {
+						// (a nil element of a map is refused by the struct walker itself, "unsupported data: nil",
+						// before any rule runs: not drawn)
+						req.ByKey = map[string]*nsUser{"k": mkUser(c)}
+					}
+					// a present struct whose rule is false makes the value invalid; absent structs do not
+					wantErr := a == 1 || d == 1 || d == 2 || (b > 0 && (b-1 == 1 || b == 1)) || (c == 1)
+					rec.Case(true, ev.HashString(fmt.Sprint(a, b, c, d)), "nested")
+					verdict := func() (s string) {
+						defer func() {
+							if r := recover(); r != nil {
+								s = fmt.Sprintf("PANIC %v", r)
+							}
+						}()
+						if err := binding.Validate(req); err != nil {
+							return "rejected"
+						}
+						return "accepted"
+					}()
+					want := map[bool]string{true: "rejected", false: "accepted"}[wantErr]
+					if verdict != want {
+						msg := fmt.Sprintf("User kind %d, Users kind %d, ByKey kind %d, U2 kind %d: binding.Validate gives %s, want %s", a, b, c, d, verdict, want)
+						ev.Fail(prop, "nested-selectors", map[string]int{"user": a, "users": b, "bykey": c, "u2": d}, msg)
+						t.Errorf("%s", msg)
+					}
+				}
+			}
+		}
+	}
+}
+
+// ---------------------------------------------------------------------------
+// The same verdict through BindAndValidate: rules that sit only in the element structs of a slice or a
+// map (the request type itself has no vd tag). binding.Validate on the bound value and BindAndValidate
+// on the request must agree.
+type bnItem struct {
+	N int `json:"n" vd:"$>0"`
+}
+
+type bnSlice struct {
+	Items []bnItem `json:"items"`
+}
+
+type bnPtrSlice struct {
+	Items []*bnItem `json:"items"`
+}
+
+type bnMap struct {
+	ByKey map[string]*bnItem `json:"by_key"`
+}
+
+type bnNested struct {
+	Rows [][]bnItem `json:"rows"`
+}
+
+func TestC20BinderNested(t *testing.T) {
+	rec := ev.New("binder-nested")
+	cases := []struct {
+		name string
+		mk   func() interface{}
+		body func(n int) string
+	}{
+		{"[]struct", func() interface{} { return &bnSlice{} }, func(n int) string { return fmt.Sprintf(`{"items":[{"n":1},{"n":%d}]}`, n) }},
+		{"[]*struct", func() interface{} { return &bnPtrSlice{} }, func(n int) string { return fmt.Sprintf(`{"items":[{"n":%d}]}`, n) }},
+		{"map[string]*struct", func() interface{} { return &bnMap{} }, func(n int) string { return fmt.Sprintf(`{"by_key":{"k":{"n":%d}}}`, n) }},
+		{"[][]struct", func() interface{} { return &bnNested{} }, func(n int) string { return fmt.Sprintf(`{"rows":[[{"n":%d}]]}`, n) }},
+	}
+	for _, c := range cases {
+		for _, n := range []int{-1, 0, 1, 7} {
+			body := c.body(n)
+			wire := fmt.Sprintf("POST /x HTTP/1.1\r\nHost: h\r\nContent-Type: application/json\r\nContent-Length: %d\r\n\r\n%s", len(body), body)
+			var r protocol.Request
+			if err := req.Read(&r, mock.NewZeroCopyReader(wire)); err != nil {
+				t.Fatalf("harness: %v", err)
+			}
+			rec.Case(true, ev.HashString(c.name, fmt.Sprint(n)), "binder-nested-"+c.name)
+			obj := c.mk()
+			errBV := binding.DefaultBinder().BindAndValidate(&r, obj, nil)
+			obj2 := c.mk()
+			if err := binding.DefaultBinder().Bind(&r, obj2, nil); err != nil {
+				t.Fatalf("harness: Bind: %v", err)
+			}
+			errV := binding.Validate(obj2)
+			if (errBV == nil) != (errV == nil) {
+				msg := fmt.Sprintf("%s with n=%d: BindAndValidate returns %v, binding.Validate on the same bound value returns %v", c.name, n, errBV, errV)
+				ev.Fail(prop, "binder-nested", map[string]interface{}{"type": c.name, "n": n}, msg)
+				t.Errorf("%s", msg)
+			}
+			if want := n > 0; (errV == nil) != want {
+				msg := fmt.Sprintf("%s with n=%d: binding.Validate returns %v, the rule $>0 says accepted=%v", c.name, n, errV, want)
+				ev.Fail(prop, "binder-nested", map[string]interface{}{"type": c.name, "n": n}, msg)
+				t.Errorf("%s", msg)
 			}
 		}
 	}
